@@ -197,8 +197,9 @@ class BayesianModelSampling(BayesianModelInference):
         if seed is not None:
             np.random.seed(seed)
 
-        # If no evidence is given, it is equivalent to forward sampling.
-        if len(evidence) == 0:
+        # If no evidence is given, it is equivalent to forward sampling. With
+        # partial_samples the loop below is needed to get `size` samples.
+        if len(evidence) == 0 and partial_samples is None:
             return self.forward_sample(size=size, include_latents=include_latents)
 
         # Setup array to be returned
